@@ -14,12 +14,13 @@ PER_SHARD = 8
 LEVEL_TEXT = ("Coq theorems over Gallina models of DnsRecordExt::compare / compare_rdata (all record kinds), "
               "Probe::tiebreaking and name_change / hostname_change: the comparison is a total order on well-typed records "
               "(antisymmetric, transitive, Equal exactly on equal class/type/rdata), so both sides of a simultaneous probe "
-              "reach opposite verdicts; the loser and only the loser restarts at now + 1000, only after its probe started; "
-              "renaming is characterised on all byte strings ('x' -> 'x (2)', 'x (n)' -> 'x (n+1)', 'h' -> 'h-2' -> 'h-3', "
-              "the u32::MAX case) with the cases where it breaks the name (escaped dots, labels growing past 63 bytes) "
-              "proved as refutations. The functions are tied to the Rust by differential runs through the facade, the "
-              "daemon-level behaviour (rename, NameChange, re-probe, packets afterwards, two and three daemons on a "
-              "loss-free link) by the simulated daemon, with chk_C08 as monitor")
+              "reach opposite verdicts (a proper prefix loses by the length rule); the loser and only the loser restarts at "
+              "now + 1000, only after its probe started; renaming is characterised on all byte strings ('x' -> 'x (2)', "
+              "'x (n)' -> 'x (n+1)', 'h' -> 'h-2' -> 'h-3', the u32::MAX case), splits at the first unescaped dot and, for "
+              "EVERY input, puts at most 63 bytes in front of it (C08_still_encodable); announcements, goodbyes and direct "
+              "answers carry the current names. The functions are tied to the Rust by differential runs through the facade, "
+              "the daemon-level behaviour (rename, NameChange, re-probe, packets afterwards, the one-second deferral after a "
+              "lost tie-break, two and three daemons on a loss-free link) by the simulated daemon, with chk_C08 as monitor")
 TECHNIQUE = ("machine-checked proof in Coq (order laws, lexicographic tie-break, rename specification) + "
              "model/implementation correspondence at component level and on simulated-daemon histories")
 LEVELS = ("K2 (name_change / hostname_change through the facade), K3 (DnsRecordExt::compare on real record objects, pairs and "
@@ -29,7 +30,9 @@ RULE = ("rename: thousands of names with '(N)' / '-N' suffixes around 9/10, 99/1
         "of 57-63 bytes, escaped dots, non-ASCII; compare: all ordered pairs and random triples from a pool of small records "
         "of every kind (ill-typed ones included and marked outside the quantifier); histories: one registration with a "
         "conflicting response / competing probe at a chosen phase, then queries of every type, unregister; two or three "
-        "daemons registering one instance at offsets 0..3 s. Non-trivial = not SKIP and (for histories) at least one packet")
+        "daemons registering one instance at offsets 0..3 s; two daemons claiming one host name with record lists of which "
+        "one is a proper prefix of the other ({A} against {A, AAAA}) at offsets 0..700 ms, competing probes whose authority "
+        "list extends / is a prefix of / equals the daemon's own. Non-trivial = not SKIP and (for histories) at least one packet")
 TRUSTED = [
     "Coq 8.16.1 kernel (coqc); vm_compute only in Examples and witness lemmas",
     "axioms: none (Print Assumptions: Closed under the global context for every theorem)",
@@ -37,7 +40,7 @@ TRUSTED = [
     "tools/extract_params.py + tools/params/registry.py (now + 1000, start_time >= now, checked_add(1) on a u32)",
     "hooks: src/verif_hooks.rs facade (name_change, hostname_change, rel = compare on real records) and the simulated "
     "world; harness/src/registry.rs, harness/src/sim.rs; tools/dnsgen.py",
-    "tools/props/reglib.py (projection, model input, interface-order choice)",
+    "tools/props/reglib.py (projection, model input, choice of interface order / jitter assignment)",
     "modelled, not verified: Rust String / str ordering as byte-wise order of the UTF-8 bytes; IpAddr ordering as "
     "(V4 before V6, then octets); u32 parsing of the suffix (optional '+', digits, overflow); hash-container orders "
     "(sorted before comparison); what the hooks replace",
@@ -45,18 +48,15 @@ TRUSTED = [
 PARTIAL = ("'Two daemons ... always end with exactly one holding the original name and both announced' is validated by "
            "simulation (real daemon threads against each other over a grid of offsets and seeds, monitor c08_final), not "
            "proved: the theorems are about the decision rules. Probe::tiebreaking has no facade entry; it is exercised "
-           "through the simulated daemon (competing probe queries). That chk_C08 accepts every run of the daemon model "
-           "outside the listed classes is validated (monitor on the model's own output), not proved. 'Still encodable' is "
-           "proved only as a refutation (it is false). Findings (known/C08.json): a rename that makes the first label longer "
-           "than 63 bytes kills the daemon thread; goodbyes and direct SRV answers keep pre-rename names; a renamed service "
-           "whose name has an upper-case letter is looked up under the wrong key (answers for the name it gave up, does "
-           "not defend the new one; three daemons can end with the same name); conflicts are never detected for instance "
-           "names with an escaped dot, and name_change would split such a name inside the label; see also "
-           "C07-host-rename-skips-reprobe (no re-probe after a lost tie-break followed by a host rename)")
+           "through the simulated daemon (competing probe queries) and judged by chk_C08 against the specification's "
+           "tb_cmp: after a lost comparison no probe query for the name within a second. That chk_C08 accepts every run of "
+           "the daemon model is validated (monitor on the model's own output), not proved. 'Still encodable' is proved as a "
+           "bound of 63 bytes of label text in front of the first unescaped dot for every input; that the text's escapes "
+           "stay well-formed (the wire label is then no longer) is checked by the executable rename_ok on every generated "
+           "name, not proved. Findings (known/C08.json): conflicts are never detected for instance names with an escaped "
+           "dot; a host rename within a second after a lost tie-break restarts the instance name's probe early")
 
-KNOWN = {21: "C08-rename-label-overflow-kills-daemon", 52: "C08-rename-label-overflow-kills-daemon",
-         22: "C08-goodbye-uses-pre-rename-names", 23: "C08-direct-answer-uses-pre-rename-host",
-         28: "C08-renamed-mixed-case-lookup", 51: "C08-rename-splits-escaped-dot"}
+KNOWN = {30: "C08-host-rename-cancels-tiebreak-deferral"}
 
 
 def hx(b):
@@ -176,6 +176,18 @@ def generate(rng, tier):
     add(reglib.gen_conflict_history, 420 * k, "conflict")
     add(reglib.gen_long_label_history, 60 * k, "long-label")
     add(reglib.gen_two_daemon_history, 100 * k, "daemons")
+    add(reglib.gen_prefix_tiebreak_history, 160 * k, "prefix")
+    add(reglib.gen_iface_toggle_history, 40 * k, "toggle")
+    # every offset of the prefix pair around the probe steps
+    for o in (0, 1, 100, 249, 250, 251, 400, 500, 700):
+        for sd in ((3, 14), (14, 3), (22, 36)):
+            for _ in range(4):
+                h = reglib.gen_prefix_tiebreak_history(rng, "pgrid-%d" % o, offset=o)
+                if len(h["daemons"]) == 2:
+                    h["daemons"][0]["seed"], h["daemons"][1]["seed"] = sd
+                    h.pop("meta", None)
+                    cases.append(Case("sim " + reglib.jdump(h), "prefix-grid"))
+                    break
     # dense part of the two-daemon grid: offsets around the probe steps x a few seed pairs
     offs = [0, 1, 124, 125, 249, 250, 251, 499, 500, 501, 749, 750, 751, 999, 1000, 1001, 1749, 1750, 1751, 2500]
     pairs = [(52, 58), (58, 52), (22, 36), (36, 22), (3, 3), (14, 47)]
@@ -219,10 +231,8 @@ def known_class(line, impl_result, monitor_result):
         names = registered_names(line)
         h = reglib.history_of(line)
         if len(h.get("daemons", [])) >= 2 and names:
-            if all("." in n for n in names):
+            if all("." in n for n in names) and all(k in KNOWN for k in knowns):
                 return "C08-escaped-dot-conflict-undetected"
-            if all(any(c.isupper() for c in n) for n in names) and all(k in KNOWN for k in knowns):
-                return "C08-renamed-mixed-case-lookup"
         return None
     return reglib.known_by_codes(monitor_result, KNOWN)
 
